@@ -28,6 +28,7 @@ fn main() {
         ("C18", _) => c18::run(&args, &mut rep),
         ("C19", _) => c19::run(&args, &mut rep),
         ("C09", _) => c09::run(&args, &mut rep),
+        ("C10", "mux-flood") => c14::run(&args, &mut rep),
         ("C10", _) => c10::run(&args, &mut rep),
         ("C12", "pool") => pool::run(&args, &mut rep),
         ("C12", _) => c12::run(&args, &mut rep),
